@@ -4,6 +4,7 @@ import (
 	"errors"
 	"fmt"
 	"sort"
+	"strings"
 
 	"github.com/freeconf/yang/val"
 )
@@ -307,7 +308,7 @@ func (c *compiler) compileType(y *Type, parent Leafable, isUnion bool) error {
 			return fmt.Errorf("%s - %s path is required", SchemaPath(parent), y.ident)
 		}
 		// parent is a leaf, so start with parent's parent which is a container-ish
-		resolvedMeta := Find(parent, y.path)
+		resolvedMeta := findLeafrefTarget(parent, y.path)
 		if _, inTypedef := parent.(*Typedef); inTypedef && resolvedMeta == nil {
 			// RFC7950 Sec 9.9.2 - the path of a typedef is evaluated at the leaf that
 			// uses the typedef, from here it need not lead anywhere
@@ -427,6 +428,30 @@ func lookupIdentity(m *Module, ident string) (*Identity, bool) {
 }
 
 // a leaf that states no default or units takes those of its typedef
+// findLeafrefTarget follows the path of a leafref from the leaf that states it. The path is
+// about data, where a choice and its cases do not exist: a '..' step from a node inside a case
+// leads to the container or list that holds the choice
+func findLeafrefTarget(from Meta, path string) Definition {
+	p := from
+	for strings.HasPrefix(path, "../") {
+		if p = p.Parent(); p == nil {
+			return nil
+		}
+		for {
+			_, isCase := p.(*ChoiceCase)
+			_, isChoice := p.(*Choice)
+			if !isCase && !isChoice {
+				break
+			}
+			if p = p.Parent(); p == nil {
+				return nil
+			}
+		}
+		path = path[3:]
+	}
+	return Find(p, path)
+}
+
 func inheritFromTypedef(parent Leafable, tdef *Typedef) {
 	if !parent.HasDefault() {
 		if tdef.HasDefault() {
